@@ -96,9 +96,19 @@ type GatedBackend struct {
 	hold  map[Stage]bool
 	conns []*GatedConn
 	dials int
-	// dialGate/dialReached belong to the *next* dial
-	dialGate    chan struct{}
-	dialReached chan struct{}
+	slots []*dialSlot // per dial: gate + reached
+}
+
+type dialSlot struct{ gate, reached chan struct{} }
+
+// slot returns the gate pair of the n-th dial (0-based), creating it on demand.
+func (b *GatedBackend) slot(n int) *dialSlot {
+	b.mu.Lock()
+	defer b.mu.Unlock()
+	for len(b.slots) <= n {
+		b.slots = append(b.slots, &dialSlot{gate: make(chan struct{}), reached: make(chan struct{})})
+	}
+	return b.slots[n]
 }
 
 // GatedConn is one connection accepted by a GatedBackend.
@@ -139,7 +149,7 @@ func (h *Harness) AddGatedBackend(name string, hold ...Stage) (*GatedBackend, er
 	port := h.nextPort
 	h.mu.Unlock()
 	b := &GatedBackend{Name: name, H: h, Addr: &net.TCPAddr{IP: net.IPv4(10, 9, 1, 1), Port: port},
-		hold: map[Stage]bool{}, dialGate: make(chan struct{}), dialReached: make(chan struct{})}
+		hold: map[Stage]bool{}}
 	for _, s := range hold {
 		b.hold[s] = true
 	}
@@ -172,24 +182,19 @@ func (b *GatedBackend) Conns() []*GatedConn {
 	return append([]*GatedConn(nil), b.conns...)
 }
 
-// AwaitDialing waits until the proxy is inside Dial (held at StageDial).
-func (b *GatedBackend) AwaitDialing(d time.Duration) bool {
-	b.mu.Lock()
-	ch := b.dialReached
-	b.mu.Unlock()
+// AwaitDialing waits until the proxy is inside its n-th Dial (0-based) of this backend.
+func (b *GatedBackend) AwaitDialing(n int, d time.Duration) bool {
 	select {
-	case <-ch:
+	case <-b.slot(n).reached:
 		return true
 	case <-time.After(d):
 		return false
 	}
 }
 
-// ReleaseDial lets the dial held at StageDial proceed.
-func (b *GatedBackend) ReleaseDial() {
-	b.mu.Lock()
-	ch := b.dialGate
-	b.mu.Unlock()
+// ReleaseDial lets the n-th dial, held at StageDial, proceed (may be called before it starts).
+func (b *GatedBackend) ReleaseDial(n int) {
+	ch := b.slot(n).gate
 	select {
 	case <-ch:
 	default:
@@ -223,14 +228,12 @@ func (b *GatedBackend) dial(ctx context.Context, player proxy.Player) (net.Conn,
 	for s, v := range b.hold {
 		hold[s] = v
 	}
-	gate, reached := b.dialGate, b.dialReached
-	// fresh pair for the dial after this one
-	b.dialGate, b.dialReached = make(chan struct{}), make(chan struct{})
 	b.mu.Unlock()
-	close(reached)
+	sl := b.slot(n)
+	close(sl.reached)
 	if hold[StageDial] {
 		select {
-		case <-gate:
+		case <-sl.gate:
 		case <-ctx.Done():
 			return nil, ctx.Err()
 		case <-time.After(4 * Watchdog):
